@@ -222,6 +222,31 @@ fn mul_case(eng: EngineKind, log_m: u16, out: &mut CaseOut) {
             break;
         }
     }
+    // the same multiplier on blocks with structure (zero quarters, related
+    // halves ...): symbols that never sit together in the enumeration above
+    let mut rng = Rng::new(crate::util::mix(log_m as u64, eng as u64));
+    let mut sb = vec![[0u8; 64]; 128];
+    for b in sb.iter_mut() {
+        rng.fill(b);
+        crate::mon_c03::structure_block(&mut rng, b);
+    }
+    let input = sb.clone();
+    codec::dyn_engine(eng).mul(&mut sb, log_m);
+    out.evals += 128 * 32;
+    'outer: for (bi, (i, o)) in input.iter().zip(&sb).enumerate() {
+        for l in 0..32 {
+            let sym = u16::from(i[l]) | u16::from(i[l + 32]) << 8;
+            let got = u16::from(o[l]) | u16::from(o[l + 32]) << 8;
+            let want = g.mul_log(sym, log_m);
+            if got != want {
+                out.violate(
+                    format!("C15:mul-wrong:{}", eng.name()),
+                    format!("engine {}: structured block {bi} lane {l}: {sym:#06x} * g^{log_m} = {got:#06x}, field gives {want:#06x}", eng.name()),
+                );
+                break 'outer;
+            }
+        }
+    }
     out.tag(format!("mul:{}", eng.name()));
     out.nontrivial_key(&format!("mul/{}/{log_m}", eng.name()));
     if log_m < 4 || log_m > 65533 {
